@@ -27,7 +27,7 @@ Value Value::prepare_extraction(const Value& a, const Value& b) {
     return Value(s);
 }
 
-bool Value::extract_values(std::vector<std::vector<uint8_t>>& values) {
+bool Value::extract_values(std::vector<std::vector<uint8_t>>& values, bool small_numbers) {
     values.clear();
     CScript s(data.begin(), data.end());
     CScript::const_iterator pc = s.begin();
@@ -38,8 +38,9 @@ bool Value::extract_values(std::vector<std::vector<uint8_t>>& values) {
         if (vch.size() == 0) {
             // the small numbers 0..16 compile to OP_0 / OP_1..OP_16, which carry no push data: take them for the number
             // they push; any other non-push opcode has no value
-            if (opcode == OP_0) { /* the empty vector: zero */ }
-            else if (opcode >= OP_1 && opcode <= OP_16) vch.push_back((uint8_t)(opcode - (OP_1 - 1)));
+            // (numeric transforms only: elsewhere a value made of such bytes must stay distinguishable from an argument list)
+            if (small_numbers && opcode == OP_0) { /* the empty vector: zero */ }
+            else if (small_numbers && opcode >= OP_1 && opcode <= OP_16) vch.push_back((uint8_t)(opcode - (OP_1 - 1)));
             else return false; // we only allow push operations here
         }
         values.push_back(vch);
@@ -178,7 +179,7 @@ inline bool get_arith_uint256(const Value& v, arith_uint256& a) {
     case Value::T_DATA:
         {
             uint256 tmp;
-            memcpy(tmp.begin(), v.data.data(), std::min<size_t>(32, v.data.size()));
+            if (!v.data.empty()) memcpy(tmp.begin(), v.data.data(), std::min<size_t>(32, v.data.size())); // (zero is the empty vector)
             a = UintToArith256(tmp);
         }
         return true;
@@ -210,7 +211,7 @@ inline void add(std::vector<uint8_t>& data, arith_uint256 a, arith_uint256 b, ar
 
 void Value::do_add() {
     std::vector<std::vector<uint8_t>> args;
-    if (!extract_values(args) || args.size() < 2 || args.size() > 3) abort("invalid input (needs two values, with optional group as third)");
+    if (!extract_values(args, true) || args.size() < 2 || args.size() > 3) abort("invalid input (needs two values, with optional group as third)");
     arith_uint256 a, b, g;
     if (!get_arith_uint256(Value(args[0]), a)) return;
     if (!get_arith_uint256(Value(args[1]), b)) return;
@@ -221,7 +222,7 @@ void Value::do_add() {
 
 void Value::do_sub() {
     std::vector<std::vector<uint8_t>> args;
-    if (!extract_values(args) || args.size() < 2 || args.size() > 3) abort("invalid input (needs two values, with optional group as third)");
+    if (!extract_values(args, true) || args.size() < 2 || args.size() > 3) abort("invalid input (needs two values, with optional group as third)");
     arith_uint256 a, b, g;
     if (!get_arith_uint256(Value(args[0]), a)) return;
     if (!get_arith_uint256(Value(args[1]), b)) return;
